@@ -1,6 +1,7 @@
 """Re-run every filed seeded change (seeded/<id>/patch.diff) against the current checks: apply to /repo, run all quick checks, undo.
 Prints one line per change (which properties report VIOLATION / UNDECIDED) and fails if a change is no longer reported with a
-VIOLATION line by any check.  Usage: /venv/bin/python tools/check_seeded.py [--update-meta] [--table]"""
+VIOLATION line by any check.  With --composed the patched tree is first rewritten by all behaviour-preserving transformations of tools/neutral_sweep.py at once
+(the report must survive the rewrite).  Usage: /venv/bin/python tools/check_seeded.py [--update-meta] [--table] [--composed]"""
 import json
 import pathlib
 import subprocess
@@ -29,9 +30,14 @@ def main():
             continue
         res = {}
         try:
+            overlay = None
+            if "--composed" in sys.argv:      # the patched tree, additionally rewritten by every behaviour-preserving transformation at once
+                sys.path.insert(0, str(VERIF / "tools"))
+                import neutral_sweep
+                overlay = neutral_sweep.transformed("composed")
             for i in range(1, 21):
                 pid = "C%02d" % i
-                code, ctx, lines = report.run_property(pid, "quick", write=False, quiet=True)
+                code, ctx, lines = report.run_property(pid, "quick", write=False, quiet=True, overlay=overlay)
                 if code:
                     first = [ln.strip() for ln in lines if ln.startswith("  C")][:3] if code == 1 else [ln.strip() for ln in lines if ln.startswith("ANALYSIS")][:3]
                     res[pid] = {"exit": code, "violation": code == 1, "first_reports": first}
